@@ -337,8 +337,20 @@ func RunC16(s *kernel.Sim) *World {
 			continue
 		}
 		// (no failure by proxy)
-		if c.err != nil && isCtxErr(c.err) && c.ctx.Err() == nil && c.retT-c.callT < 5*time.Minute {
-			w.Fail("proxy", "caller %d (%q) failed with %v at t=%v although its own context is live and its five-minute limit had not passed (called t=%v)",
+		// A context error with the caller's own context alive is legitimate
+		// only as the caller's own safety limit, i.e. when a request it led
+		// itself was the one that timed out (whatever the limit's length);
+		// otherwise the failure was inherited from somebody else's flight.
+		ledTimedOut := false
+		for _, n := range c.names {
+			for _, r := range lookupReqs[n] {
+				if strings.HasPrefix(r.Task, mine) && isCtxErrText(r.Err) {
+					ledTimedOut = true
+				}
+			}
+		}
+		if c.err != nil && isCtxErr(c.err) && c.ctx.Err() == nil && !ledTimedOut {
+			w.Fail("proxy", "caller %d (%q) failed with %v at t=%v although its own context is live and no request it led had timed out (called t=%v): it was failed by another caller's context",
 				c.id, c.names, c.err, c.retT, c.callT)
 		}
 		// (working handle)
